@@ -315,6 +315,7 @@ def run_to_completion(state: State, external_event: Union[dict, Event]) -> State
                 heads_matching: List[FlowHead] = []
                 heads_not_matching: List[FlowHead] = []
                 heads_failing: List[FlowHead] = []
+                heads_with_error: List[FlowHead] = []
 
                 # Iterate over all potential head candidates and check if we have an event match
                 for flow_state_uid, head_uid in head_candidates:
@@ -322,9 +323,31 @@ def run_to_completion(state: State, external_event: Union[dict, Event]) -> State
                     head = flow_state.heads[head_uid]
                     element = get_element_from_head(state, head)
                     if element is not None and is_match_op_element(element):
-                        matching_score = _compute_event_matching_score(
-                            state, flow_state, head, event
-                        )
+                        try:
+                            matching_score = _compute_event_matching_score(
+                                state, flow_state, head, event
+                            )
+                        except Exception as e:
+                            # A runtime error in the match statement of one flow (e.g. an invalid
+                            # pattern) must only fail that flow and not the processing of the event
+                            log.warning(
+                                "Flow '%s' failed due to Colang runtime exception in match statement: %s",
+                                flow_state.flow_id,
+                                e,
+                                exc_info=True,
+                            )
+                            _push_internal_event(
+                                state,
+                                Event(
+                                    name="ColangError",
+                                    arguments={
+                                        "type": str(type(e).__name__),
+                                        "error": str(e),
+                                    },
+                                ),
+                            )
+                            heads_with_error.append(head)
+                            continue
 
                         if matching_score > 0.0:
                             # Successful event match
@@ -380,6 +403,10 @@ def run_to_completion(state: State, external_event: Union[dict, Event]) -> State
                 if isinstance(event, ActionEvent):
                     # Update actions status in all active flows by current action event
                     _update_action_status_by_event(state, event)
+
+                # Abort all flows with a runtime error in their match statement
+                for head in heads_with_error:
+                    _abort_flow(state, get_flow_state_from_head(state, head), [])
 
                 # Abort all flows with a mismatch
                 for head in heads_failing:
@@ -890,8 +917,6 @@ def _advance_head_front(state: State, heads: List[FlowHead]) -> List[FlowHead]:
             # We only advance merging heads if all internal events were processed
             actionable_heads.append(head)
             continue
-        elif head.status == FlowHeadStatus.ACTIVE:
-            head.position += 1
 
         if flow_state.status == FlowStatus.WAITING:
             flow_state.status = FlowStatus.STARTING
@@ -899,6 +924,10 @@ def _advance_head_front(state: State, heads: List[FlowHead]) -> List[FlowHead]:
         flow_finished = False
         flow_aborted = False
         try:
+            if head.status == FlowHeadStatus.ACTIVE:
+                # Note: this can already raise, e.g. if the next element is an invalid match statement
+                head.position += 1
+
             new_heads = slide(state, flow_state, flow_config, head)
 
             # Advance all new heads created by a head fork
@@ -948,8 +977,8 @@ def _advance_head_front(state: State, heads: List[FlowHead]) -> List[FlowHead]:
         except Exception as e:
             # In case there were any runtime error the flow will be aborted (fail)
             source_line = "unknown"
-            element = flow_config.elements[head.position]
-            if hasattr(element, "_source") and element._source:
+            element = get_element_from_head(state, head)
+            if element is not None and hasattr(element, "_source") and element._source:
                 source_line = str(element._source.line)
             log.warning(
                 "Flow '%s' failed on line %s (%s) due to Colang runtime exception: %s",
